@@ -38,6 +38,9 @@ def one(sid, tier='quick', skip_validate=False):
             res['demo_msg'] = (r1.stdout + r1.stderr)[-300:]
             t = sh([PY, '-m', 'pytest', '-q', '-p', 'no:cacheprovider', '-x'], env=env, cwd=wt, timeout=1800)
             tail = t.stdout.strip().split('\n')[-1] if t.stdout.strip() else t.stderr[-200:]
+            if '146 passed' not in tail:      # the suite draws random inputs: retry once, in full
+                t = sh([PY, '-m', 'pytest', '-q', '-p', 'no:cacheprovider'], env=env, cwd=wt, timeout=1800)
+                tail = (t.stdout.strip().split('\n')[-1] if t.stdout.strip() else t.stderr[-200:]) + ' (second run)'
             res['tests'] = tail
             res['valid'] = (res['demo_clean_exit'] == 0 and res['demo_changed_exit'] != 0 and '146 passed' in tail)
         lean = os.path.join(tmp, 'lean')
